@@ -20,6 +20,7 @@ structure Pending where
   callNo : String
   call : String
   args : List String
+  ackAtBegin : Nat := 0          -- largest commit ts acknowledged to any client when this call was entered
   deriving Repr
 
 structure JState where
@@ -71,7 +72,7 @@ def evsOfRpc (kind client cls : String) (cmd ans : List String) : List Ev :=
   let answered := fate == .answered
   let locks : List Ev := if answered then (lockedIn answer).map fun (st, ttl) => Ev.lockSeen client st ttl else []
   let main : List Ev :=
-    match cmd with
+    match (if cmd.length == 14 && cmd.headD "" == "prewrite" then cmd.take 13 else if cmd.length == 8 && cmd.headD "" == "status" then cmd.take 7 else cmd) with
     | ["prewrite", p, st, _fu, _ttl, mc, _sz, _ao, _rs, ms, asyncT, onepcT, secT] =>
       match hx p, st.toNat?, mc.toNat? with
       | some p, some st, some mc =>
@@ -95,8 +96,25 @@ def evsOfRpc (kind client cls : String) (cmd ans : List String) : List Ev :=
         let isErr := ans.headD "" != "ok"
         let ttl := ((ans.getD 1 "").splitOn "=").getD 1 "0" |>.toNat? |>.getD 0
         let cts := ((ans.getD 2 "").splitOn "=").getD 1 "0" |>.toNat? |>.getD 0
-        [Ev.status client fate p lt cs cur (rb == "1") answered ttl cts isErr]
+        -- an async primary reports its min_commit_ts (token `mincommit=` after `async=1`)
+        let asyncMC : List Ev :=
+          if answered && ans.contains "async=1" then
+            match (ans.find? (·.startsWith "mincommit=")).bind (fun t => (t.drop 10).toString.toNat?) with
+            | some mcv => [Ev.secAnswer client lt [mcv] false 0]
+            | none => []
+          else []
+        [Ev.status client fate p lt cs cur (rb == "1") answered ttl cts isErr] ++ asyncMC
       | _, _, _, _ => []
+    | ["checksecondary", _ks, st] =>
+      match st.toNat? with
+      | some st =>
+        if answered && ans.headD "" == "ok" then
+          let locksTok := (ans.find? (·.startsWith "locks=")).map (fun t => (t.drop 6).toString) |>.getD "-"
+          let cts := (ans.find? (·.startsWith "commit=")).bind (fun t => (t.drop 7).toString.toNat?) |>.getD 0
+          let mcs := (splitList locksTok).filterMap fun l => ((l.splitOn ":").getD 1 "").toNat?
+          [Ev.secAnswer client st mcs (locksTok == "-") cts]
+        else []
+      | none => []
     | ["resolve", _, _, st, ct, infos, _keys] =>
       match st.toNat?, ct.toNat?, (tokVal "infos=" infos >>= parsePairs) with
       | some st, some ct, some infos => [Ev.resolve client fate st ct infos]
@@ -196,7 +214,13 @@ def toldCheck (j : JState) : Option String :=
       -- Commit of a transaction without mutations: nothing to commit, and nothing of it may be in the store
       if o == .none then none else some s!"C03 Commit of {st} answered success without a commit ts but the store shows {repr o}"
     | ["ok", c] =>
-      if committedAt == c.toNat? && committedAt.isSome then none
+      -- a transaction whose every mutation is a non-locking existence check (optimistic insert-then-delete) commits
+      -- without leaving anything in the store
+      let onlyChecks := match j.mon.find st with
+        | some t => !t.prewritten.isEmpty && t.prewritten.all (fun x => x.2.1 == .checkNotExists)
+        | none => false
+      if onlyChecks && o == .none then none
+      else if committedAt == c.toNat? && committedAt.isSome then none
       else some s!"C03 Commit of {st} answered success at {c} but the store shows {repr o}"
     | ["undetermined"] =>
       if j.commitPointLost.contains st then none
@@ -260,7 +284,7 @@ def step (j : JState) (line : String) : JState × String :=
       let phase := (words line).getD 3 ""
       let tail := (words line).drop 4
       if phase == "begin" then
-        let p : Pending := { client := client', callNo := callNo, call := tail.headD "", args := tail.drop 1 }
+        let p : Pending := { client := client', callNo := callNo, call := tail.headD "", args := tail.drop 1, ackAtBegin := j.maxAckedCommit }
         let j1 := { j with pending := p :: j.pending.filter (·.callNo != callNo) }
         if p.call == "commit" then
           match runMon j1.mon [.commitCalled client' (curOf j1 client')] with
@@ -283,8 +307,9 @@ def step (j : JState) (line : String) : JState × String :=
             match (tail.headD "").toNat? with
             | some ts =>
               -- C01 external consistency: a commit acknowledged before this begin is visible to it
-              let ext := if ts < j1.maxAckedCommit then
-                  some s!"C01 begin at {ts} after a commit at {j1.maxAckedCommit} was acknowledged" else none
+              -- (judged against the acknowledgements that preceded the ENTRY of Begin, not its return)
+              let ext := if ts < p.ackAtBegin then
+                  some s!"C01 begin at {ts} after a commit at {p.ackAtBegin} was acknowledged" else none
               monEv { j1 with curTxn := (p.client, ts) :: j1.curTxn.filter (·.1 != p.client) } [.begin_ p.client ts (pess == "1")] ext
             | none => (j1, "ok")
           | "get", [k] =>
